@@ -434,36 +434,207 @@ def build(repo=None):
             h2 = z3.String("other_hash")
             eng.oblige(s1, "C18:tag-is-injective-in-the-checker-hash-and-never-empty", z3.And(z3.Length(opt.t) > 0, z3.Implies(z3.Concat(z3.StringVal("jaxtyping9"), h2) == opt.t, h2 == hsh)))
     collect(st.obl, ["C18"])
-    # patch extent of the loader
+    # ---------------------------------------------------------------- the loader: get_code / source_to_code executed path by path
     ldr = mod.cls("_JaxtypingLoader")
     meths = {b.name: b for b in ldr.body if isinstance(b, ast.FunctionDef)}
     with_patch = {nm: [w for w in ast.walk(f) if isinstance(w, ast.With) and any("patch(" in ast.unparse(i.context_expr) for i in w.items)] for nm, f in meths.items()}
     users = [nm for nm, ws in with_patch.items() if ws]
     obligations.append({"clause": "C18:cache_from_source-is-patched-only-inside-this-loader's-get_code(never-while-a-module-body-runs)", "kind": "vc", "pc": [], "path": [], "meta": {"patch_users": z3.StringVal(",".join(users))}, "serves": ["C18"],
                         "goal": z3.BoolVal(users == ["get_code"])})
-    if users == ["get_code"]:
-        gc = meths["get_code"]
-        fdesc("_JaxtypingLoader.get_code", gc)
-        w = with_patch["get_code"][0]
-        body_ok = len(w.body) == 1 and isinstance(w.body[0], ast.Return) and ast.unparse(w.body[0].value).replace(" ", "") in ("super().get_code(fullname)",)
-        item = ast.unparse(w.items[0].context_expr)
-        tgt_ok = "'importlib._bootstrap_external.cache_from_source'" in item and "_optimized_cache_from_source" in item and "self._typechecker.get_hash()" in item
-        obligations.append({"clause": "C18:the-patched-region-is-exactly-super().get_code(fullname)", "kind": "vc", "pc": [], "path": [], "meta": {}, "serves": ["C18"], "goal": z3.BoolVal(body_ok)})
-        obligations.append({"clause": "C18:the-patch-tags-with-this-loader's-own-checker-hash", "kind": "vc", "pc": [], "path": [], "meta": {}, "serves": ["C18"], "goal": z3.BoolVal(tgt_ok)})
+    gc = meths.get("get_code")
+    if gc is None:
+        raise NotFound("_JaxtypingLoader.get_code")
+    fdesc("_JaxtypingLoader.get_code", gc)
+    from ..stmts import run as run_stmts
+
+    def loader_engine():
+        e = Engine(mod)
+        s = State()
+        s.ghost.update(patched=None, window_calls=[])
+        tcobj = s.alloc(Obj("Typechecker", {"get_hash": Fn("get_hash", model=lambda e_, s_, a, kw, nd: [(s_, Z("str", hsh))])}, tag="self._typechecker"))
+        selfr = s.alloc(Obj("_JaxtypingLoader", {"_typechecker": tcobj}, tag="self"))
+
+        def m_patch(e_, s_, args, kw, nd):
+            s1 = s_.clone()
+            return [(s1, s1.alloc(Obj("patch-cm", {"target": args[0] if args else NONE, "new": args[1] if len(args) > 1 else kw.get("new", NONE)}, tag="patch-cm")))]
+
+        def m_partial(e_, s_, recv, args, kw, nd):
+            s1 = s_.clone()
+            return [(s1, s1.alloc(Obj("partial", {"func": args[0] if args else NONE, "args": Tup(list(args[1:])), "kwargs": Tup(list(kw.values()))}, tag="partial")))]
+
+        def m_with(e_, s_, node):
+            if len(node.items) != 1 or node.items[0].optional_vars is not None:
+                raise Unsupported("with statement in the loader")
+            outs = []
+            for s1, cm in e_.ev(node.items[0].context_expr, s_):
+                if is_raised(cm):
+                    outs.append((s1, Outcome("raise", cm.exc)))
+                    continue
+                if not (isinstance(cm, Ref) and isinstance(s1.get(cm), Obj) and s1.get(cm).cls == "patch-cm"):
+                    raise Unsupported("with statement over something else than unittest.mock.patch in the loader")
+                if s1.ghost.get("patched") is not None:
+                    raise Unsupported("nested patches in the loader")
+                s2 = s1.clone()
+                s2.ghost["patched"] = cm
+                for s3, o3 in run_stmts(e_, node.body, s2):
+                    s3.ghost["patched"] = None  # patch.__exit__ restores the attribute on every exit
+                    outs.append((s3, o3))
+            return outs
+
+        def m_get_code(e_, s_, recv, args, kw, nd):
+            if not (isinstance(recv, Opaque) and recv.tag == "super()"):
+                return None
+            ok, bad = s_.clone(), s_.clone()
+            res = Opaque("code-from-SourceFileLoader.get_code")
+            ok.ghost["window_calls"] = ok.ghost["window_calls"] + [(tuple(args), dict(kw), ok.ghost.get("patched"), res)]
+            bad.ghost["window_calls"] = bad.ghost["window_calls"] + [(tuple(args), dict(kw), bad.ghost.get("patched"), None)]
+            return [(ok, res), (bad, Raised(Exc(frozenset(ANY_EXC), origin="super().get_code")))]
+
+        e.globals["patch"] = Fn("patch", model=m_patch)
+        e.globals["super"] = Fn("super", model=lambda e_, s_, a, kw, nd: [(s_, Opaque("super()"))])
+        e.globals["ft"] = Opaque("global:ft")
+        e.globals["functools"] = Opaque("global:functools")
+        e.method_models["partial"] = m_partial
+        e.method_models["__with__"] = m_with
+        e.method_models["get_code"] = m_get_code
+        return e, s, selfr, tcobj
+
+    eng, st, self_ref, tcobj = loader_engine()
+    fullname = Opaque("fullname")
+    p = [a.arg for a in gc.args.args]
+    st.env = {p[0]: self_ref, p[1]: fullname}
+    CLAUSE_GC = "C18:get_code:every-result-is-super().get_code(fullname)-run-while-cache_from_source-is-patched-with-this-loader's-checker-hash"
+    for s1, o in eng.run(gc.body, st):
+        paths += 1
+        calls = s1.ghost["window_calls"]
+        if o.kind == "raise":
+            # only the wrapped get_code's own exception may leave (ImportError, SyntaxError of the module, ...)
+            eng.oblige(s1, "C18:get_code:raises-only-what-super().get_code-raised", z3.BoolVal(getattr(o.val, "origin", None) == "super().get_code"))
+            continue
+        good = o.kind == "return" and len(calls) == 1 and calls[0][3] is not None and o.val is calls[0][3] and len(calls[0][0]) == 1 and calls[0][0][0] is fullname and not calls[0][1]
+        cm = calls[0][2] if calls else None
+        tagged = None
+        if good and cm is not None:
+            cmo = s1.get(cm)
+            tgt, new = cmo.attrs["target"], cmo.attrs["new"]
+            if isinstance(tgt, Z) and tgt.kind == "str" and isinstance(new, Ref) and isinstance(s1.get(new), Obj) and s1.get(new).cls == "partial":
+                po = s1.get(new)
+                f0, a0 = po.attrs["func"], po.attrs["args"].items
+                if isinstance(f0, Fn) and f0.node is oc and len(a0) == 1 and isinstance(a0[0], Z) and a0[0].kind == "str" and not po.attrs["kwargs"].items:
+                    tagged = z3.And(tgt.t == z3.StringVal("importlib._bootstrap_external.cache_from_source"), a0[0].t == hsh)
+        eng.oblige(s1, CLAUSE_GC, tagged if tagged is not None else z3.BoolVal(False))
+        eng.oblige(s1, "C18:get_code:the-patch-is-undone-on-exit", z3.BoolVal(s1.ghost.get("patched") is None))
+    collect(st.obl, ["C18", "C11"])
     gh = mod.func("Typechecker.get_hash")
     obligations.append({"clause": "C18:get_hash-returns-the-hash-set-at-construction", "kind": "vc", "pc": [], "path": [], "meta": {}, "serves": ["C18", "C11"],
                         "goal": z3.BoolVal(len(gh.body) == 1 and isinstance(gh.body[0], ast.Return) and ast.unparse(gh.body[0].value) == "self.hash")})
-    # source_to_code: parse -> transform with this loader's checker -> fix_missing_locations -> compile the transformed tree
+    # source_to_code: decode -> parse -> transform with this loader's checker -> fix_missing_locations -> compile the transformed tree, on EVERY path
     stc = meths.get("source_to_code")
     if stc is None:
         raise NotFound("_JaxtypingLoader.source_to_code")
     fdesc("_JaxtypingLoader.source_to_code", stc)
-    stxt = ast.unparse(stc)
-    obligations.append({"clause": "C10:source_to_code-decodes-the-file-with-importlib's-decode_source(BOM-and-coding-cookie-aware)", "kind": "vc", "pc": [], "path": [], "meta": {}, "serves": ["C10", "C18"],
-                        "goal": z3.BoolVal("source = decode_source(data)" in stxt)})
-    order = [stxt.find("ast.PyCF_ONLY_AST"), stxt.find("JaxtypingTransformer(typechecker=self._typechecker).visit(tree)"), stxt.find("ast.fix_missing_locations(tree)"), stxt.rfind("compile, tree, path")]
-    obligations.append({"clause": "C18:source_to_code-compiles-the-tree-transformed-with-this-loader's-checker", "kind": "vc", "pc": [], "path": [], "meta": {}, "serves": ["C18", "C10"],
-                        "goal": z3.BoolVal(all(x >= 0 for x in order) and order == sorted(order))})
+    eng, st, self_ref, tcobj = loader_engine()
+    st.ghost.update(fixed=[], decoded=[])
+    ONLY_AST = Opaque("ast.PyCF_ONLY_AST")
+
+    def m_compile(e_, s_, args, kw, nd):
+        s1 = s_.clone()
+        r = s1.alloc(Obj("compile-result", {"src": args[0] if args else NONE, "path": args[1] if len(args) > 1 else NONE, "mode": args[2] if len(args) > 2 else NONE,
+                                            "flags": args[3] if len(args) > 3 else kw.get("flags", NONE), "optimize": kw.get("optimize", NONE)}, tag="compile-result"))
+        s2 = s_.clone()
+        return [(s1, r), (s2, Raised(Exc(frozenset({"SyntaxError", "ValueError"}), origin="compile")))]
+
+    def m_decode(e_, s_, args, kw, nd):
+        s1 = s_.clone()
+        r = Opaque("decoded-source")
+        s1.ghost["decoded"] = s1.ghost["decoded"] + [(tuple(args), r)]
+        return [(s1, r), (s_.clone(), Raised(Exc(frozenset({"SyntaxError", "UnicodeDecodeError"}), origin="decode_source")))]
+
+    def m_new_tr(e_, s_, cls, args, kw, nd):
+        s1 = s_.clone()
+
+        def m_visit(e2, s2, a, kw2, nd2):
+            s3 = s2.clone()
+            return [(s3, s3.alloc(Obj("transformed", {"of": a[0] if a else NONE, "by": kw.get("typechecker", NONE)}, tag="transformed")))]
+
+        return [(s1, s1.alloc(Obj("JaxtypingTransformer", {"visit": Fn("visit", model=m_visit)}, tag="transformer")))]
+
+    def m_fix(e_, s_, args, kw, nd):
+        s1 = s_.clone()
+        s1.ghost["fixed"] = s1.ghost["fixed"] + [args[0] if args else NONE]
+        return [(s1, args[0] if args else NONE)]
+
+    eng.globals.update({"compile": Fn("compile", model=m_compile), "decode_source": Fn("decode_source", model=m_decode), "JaxtypingTransformer": Cls("JaxtypingTransformer"),
+                        "ast": Opaque("global:ast", attrs={"PyCF_ONLY_AST": ONLY_AST}), "ast.fix_missing_locations": Fn("fix_missing_locations", model=m_fix)})
+    eng.method_models["new:JaxtypingTransformer"] = m_new_tr
+    data_v, path_v2, opt_v = Opaque("data"), Opaque("path"), Opaque("_optimize")
+    names = [a.arg for a in stc.args.args] + [a.arg for a in stc.args.kwonlyargs]
+    st.env = dict(zip(names, [self_ref, data_v, path_v2, opt_v]))
+    for s1, o in eng.run(stc.body, st):
+        paths += 1
+        if o.kind == "raise":
+            eng.oblige(s1, "C18:source_to_code:raises-only-what-decoding-or-compiling-raised", z3.BoolVal(getattr(o.val, "origin", None) in ("compile", "decode_source")))
+            continue
+        dec_ok = tr_ok = False
+        if o.kind == "return" and isinstance(o.val, Ref) and isinstance(s1.get(o.val), Obj) and s1.get(o.val).cls == "compile-result":
+            code = s1.get(o.val)
+            tr = code.attrs["src"]
+            if isinstance(tr, Ref) and isinstance(s1.get(tr), Obj) and s1.get(tr).cls == "transformed":
+                tro = s1.get(tr)
+                tree = tro.attrs["of"]
+                if isinstance(tree, Ref) and isinstance(s1.get(tree), Obj) and s1.get(tree).cls == "compile-result":
+                    to = s1.get(tree)
+                    decs = s1.ghost["decoded"]
+                    dec_ok = len(decs) == 1 and len(decs[0][0]) == 1 and decs[0][0][0] is data_v and to.attrs["src"] is decs[0][1]
+                    tr_ok = (to.attrs["flags"] is ONLY_AST and to.attrs["path"] is path_v2 and code.attrs["path"] is path_v2 and isinstance(code.attrs["flags"], NoneV)
+                             and to.attrs["optimize"] is opt_v and code.attrs["optimize"] is opt_v and isinstance(tro.attrs["by"], Ref) and tro.attrs["by"].h == tcobj.h
+                             and any(isinstance(f_, Ref) and f_.h == tr.h for f_ in s1.ghost["fixed"])
+                             and all(isinstance(x.attrs["mode"], Z) and z3.is_string_value(x.attrs["mode"].t) and x.attrs["mode"].t.as_string() == "exec" for x in (to, code)))
+        eng.oblige(s1, "C10:source_to_code-decodes-the-file-with-importlib's-decode_source(BOM-and-coding-cookie-aware)", z3.BoolVal(bool(dec_ok)))
+        eng.oblige(s1, "C18:source_to_code-compiles-the-tree-transformed-with-this-loader's-checker", z3.BoolVal(bool(tr_ok)))
+    collect(st.obl, ["C18", "C10", "C11", "C19"])
+    # the patched window performs no import of its own: every function of this file reachable from get_code / source_to_code
+    every = {}
+    for b in mod.tree.body:
+        if isinstance(b, ast.FunctionDef):
+            every.setdefault(b.name, []).append((b.name, b))
+        elif isinstance(b, ast.ClassDef):
+            for c in b.body:
+                if isinstance(c, ast.FunctionDef):
+                    every.setdefault(c.name, []).append((f"{b.name}.{c.name}", c))
+    classes = {b.name: b for b in mod.tree.body if isinstance(b, ast.ClassDef)}
+    work, window = [("_JaxtypingLoader.get_code", gc), ("_JaxtypingLoader.source_to_code", stc)], {}
+    while work:
+        q, f = work.pop()
+        if q in window:
+            continue
+        window[q] = f
+        for c in ast.walk(f):
+            if not isinstance(c, ast.Call):
+                continue
+            nm = c.func.id if isinstance(c.func, ast.Name) else c.func.attr if isinstance(c.func, ast.Attribute) else None
+            if nm is None:
+                continue
+            cands = list(every.get(nm, []))
+            if nm in classes:
+                cands += [(f"{nm}.{m_.name}", m_) for m_ in classes[nm].body if isinstance(m_, ast.FunctionDef) and m_.name == "__init__"]
+            if nm in ("visit", "generic_visit"):
+                cands += [x for k_, v_ in every.items() if k_.startswith("visit_") for x in v_]
+            if nm == "get_code" and isinstance(c.func, ast.Attribute) and ast.unparse(c.func.value) == "super()":
+                cands = []  # the wrapped SourceFileLoader.get_code, not this file's
+            work.extend(cands)
+    IMPORTING = {"__import__", "import_module", "reload", "exec", "eval", "exec_module", "load_module", "run_module", "run_path", "find_spec", "import_hook", "install_import_hook"}
+    offenders = []
+    for q, f in sorted(window.items()):
+        for c in ast.walk(f):
+            if isinstance(c, (ast.Import, ast.ImportFrom)):
+                offenders.append(f"{q}:{c.lineno}:import-statement")
+            elif isinstance(c, ast.Call):
+                nm = c.func.id if isinstance(c.func, ast.Name) else c.func.attr if isinstance(c.func, ast.Attribute) else None
+                if nm in IMPORTING:
+                    offenders.append(f"{q}:{c.lineno}:{nm}()")
+    obligations.append({"clause": "C18:no-import-is-performed-by-this-file's-code-while-cache_from_source-is-patched(frame-of-the-patched-window)", "kind": "vc", "pc": [], "path": [], "serves": ["C18"],
+                        "meta": {"window": z3.StringVal(",".join(sorted(window))), "offenders": z3.StringVal(",".join(offenders))}, "goal": z3.BoolVal(not offenders)})
 
     # ================================================================== C10: the transformer
     tr = mod.cls("JaxtypingTransformer")
